@@ -546,6 +546,47 @@ class ExprMixin:
                     self.dset(s2, d, k, v)
                 yield d, s2
 
+    def ev_DictComp(self, e, st):
+        """{k: copy(v) for k, v in d.items()}: a new dict with the same keys (same key objects, same order) whose
+        values are per-key copies -- the shape used to copy a genotype's gene tables."""
+        if len(e.generators) != 1 or e.generators[0].ifs:
+            raise Unsupported("dict comprehension form", e)
+        gen = e.generators[0]
+        it = gen.iter
+        if not (isinstance(it, ast.Call) and isinstance(it.func, ast.Attribute) and it.func.attr == "items" and not it.args):
+            raise Unsupported("dict comprehension must iterate d.items()", e)
+        tgt = gen.target
+        if not (isinstance(tgt, ast.Tuple) and len(tgt.elts) == 2 and all(isinstance(x, ast.Name) for x in tgt.elts)):
+            raise Unsupported("dict comprehension target", e)
+        kn, vn = tgt.elts[0].id, tgt.elts[1].id
+        if not (isinstance(e.key, ast.Name) and e.key.id == kn):
+            raise Unsupported("dict comprehension must keep the keys", e)
+        val = e.value
+        copies = False
+        if isinstance(val, ast.Name) and val.id == vn:
+            copies = False
+        elif isinstance(val, ast.Call) and len(val.args) == 1 and isinstance(val.args[0], ast.Name) and val.args[0].id == vn and isinstance(val.func, ast.Name) and val.func.id in ("deepcopy", "list", "copy"):
+            copies = True
+        elif isinstance(val, ast.Call) and isinstance(val.func, ast.Attribute) and val.func.attr == "copy" and isinstance(val.func.value, ast.Name) and val.func.value.id == vn and not val.args:
+            copies = True
+        elif isinstance(val, ast.Subscript) and isinstance(val.value, ast.Name) and val.value.id == vn and isinstance(val.slice, ast.Slice) and val.slice.lower is None and val.slice.upper is None:
+            copies = True
+        else:
+            raise Unsupported("dict comprehension value form", e)
+        for d, s in self.ev(it.func.value, st):
+            if not is_dict(d.kind):
+                raise Unsupported("dict comprehension over a non-dict", e)
+            if copies:
+                yield self.bi_deepcopy([d], {}, s, e), s
+            else:
+                k, vk = self.dict_kinds(d)
+                nd = self.new_dict(s, k, vk)
+                self._copy_dict_shell(s, d, nd)
+                mn = self.H.n_map(k.sort(), vk.sort())
+                ma = self.H.map_arr(s, k.sort(), vk.sort())
+                s.heap[mn] = z3.Store(ma, nd.term, self.sel(s, ma, d.term))
+                yield nd, s
+
     def ev_Lambda(self, e, st):
         yield V(FN, FuncRef("lambda", node=e)), st
 
